@@ -181,7 +181,7 @@ def run(tier):
         cases += [(1, 1, 1215), (0, 18278, 2), (0, 18279, 2), (3, 18278, 1), (1, 3, 18279)]
     for conv, ncols, nlay in cases:
         for atm in (0, 1, 2):
-            for just, case in (("r", "l"), ("l", "u")) if not quick else (("r", "l"),):
+            for just, case in (("r", "l"), ("l", "u")) if (not quick or ncols * nlay <= 400) else (("r", "l"),):     # left-justified names too
                 caplay = {0: 99, 1: 18278, 2: 702, 3: 702}[conv]
                 capcol = {0: 18278, 1: 99, 2: 999, 3: 18278}[conv]
                 # the layer generator skips the surface layer's own name ('atm' = 1209, 'at' = 46)
@@ -243,7 +243,7 @@ def run(tier):
                 if skip and nlay >= skip and any(l.name == geo.layerlist[0].name for l in geo.layerlist[1:]):
                     rep.violation("add_layers:conv%d:surface-layer-name-reused" % conv, "P_generated_names_distinct", det)
                 # the same names, lengths and name parts after the geometry has been written to a file and read back
-                if not bad and ncols * nlay <= 4000:
+                if not bad and ncols * nlay <= 4000 and just == "r":       # (the file reader right-justifies names: left-justified ones do not come back as written)
                     import os
                     import tempfile
                     fd, path = tempfile.mkstemp(prefix="verif-c17-", suffix=".dat")
@@ -304,6 +304,53 @@ def run(tier):
                             or len(set(names)) != len(names) or len(names) != ncols * (nlay + 1):
                         det.update(columns_built=geo.num_columns, nodes_built=geo.num_nodes, blocks=len(set(names)))
                         rep.violation("rectangular:chars:duplicate-names", "P_generated_names_distinct", det)
+    # the helpers that hand out unused names: with every name of the space taken they raise; otherwise what they return is unused
+    import numpy as _np
+    for chars in ("abc", "ab"):
+        for conv in (0, 1):
+            g_ = m.mulgrid(convention=conv)
+            cap = sum(len(chars) ** k for k in range(1, g_.colname_length + 1))
+            for taken in (cap, cap - 1):
+                g_ = m.mulgrid(convention=conv)
+                for i_ in range(1, taken + 1):
+                    g_.add_node(m.node(g_.node_name_from_number(i_, chars=chars), _np.array([float(i_), 0.0])))
+                for istart in (0, taken - 1, taken):
+                    rep.case(("new-name", chars, conv, taken, istart))
+                    det = {"chars": chars, "convention": conv, "names_taken": taken, "capacity": cap, "istart": istart}
+                    try:
+                        name, _ = g_.new_node_name(istart, chars=chars)
+                    except Err:
+                        if taken < cap and istart < cap:
+                            rep.violation("new_node_name:spurious-error", "P_error_exactly_above_capacity", det)
+                        continue
+                    except Exception as ex:
+                        det["error"] = repr(ex)
+                        rep.violation("new_node_name:raises-other", "P_naming_error_explicit", det)
+                        continue
+                    if name in g_.node or len(name) != g_.colname_length:
+                        det["returned"] = name
+                        rep.violation("new_node_name:returns-a-name-in-use", "P_generated_names_distinct", det)
+    # a name space used up by an edit (refinement of a geometry over a three-letter alphabet: 39 names): an explicit error, or
+    # distinct names - never a name handed out twice
+    for chars, nx, ny in (("abc", 4, 3), ("abc", 4, 4), ("abc", 3, 2), ("abcd", 6, 5)):
+        det = {"chars": chars, "columns": nx * ny, "operation": "refine all columns"}
+        rep.case(("geo-refine-exhaust", chars, nx, ny))
+        try:
+            with core.watchdog(300), core.quiet():
+                geo = m.mulgrid().rectangular([10.0] * nx, [10.0] * ny, [1.0, 1.0], convention=0, atmos_type=2, chars=chars)
+                n0, c0 = geo.num_nodes, geo.num_columns
+                geo.refine(chars=chars)
+        except Err:
+            continue
+        except Exception as ex:
+            det["error"] = repr(ex)
+            rep.violation("refine:name-space:raises-other", "P_naming_error_explicit", det)
+            continue
+        want_cols, want_nodes = 4 * c0, (2 * nx + 1) * (2 * ny + 1)
+        if geo.num_columns != want_cols or geo.num_nodes != want_nodes or len(set(c_.name for c_ in geo.columnlist)) != geo.num_columns \
+                or len(set(n_.name for n_ in geo.nodelist)) != geo.num_nodes:
+            det.update(columns=geo.num_columns, nodes=geo.num_nodes, expected=[want_cols, want_nodes])
+            rep.violation("refine:name-space:duplicate-names", "P_generated_names_distinct", det)
     # names without leading blanks (spaces=False): padded with the alphabet's own first character, whatever that is
     for chars in ("qwertyuiopasdfghjklzxcvbnm", "zyxwvutsrqponmlkjihgfedcba", "bacdefgh"):
         for conv, ncols, nlay in ((0, 300, 2), (3, 150, 30), (0, 40, 3)):
@@ -327,7 +374,8 @@ def run(tier):
                 "(alphabet, spaces, length) the conventions use, plus a window around every capacity limit, through "
                 "column/node/layer_name_from_number with left/right justification; rectangular geometries at capacity +-1")
     rep.leaves = []
-    rep.assumptions = ["character sets are alphabetic (the quantifier's 'custom alphabetic character sets')"]
+    rep.assumptions = ["character sets are alphabetic (the quantifier's 'custom alphabetic character sets')",
+                       "names are compared after a geometry file cycle only for right-justified names (the reader right-justifies what it reads)"]
     rep.exhaustive = False
     return rep.finish()
 
